@@ -133,7 +133,7 @@ pub(crate) mod verif_proofs {
                 let d = any_dist_of($family);
                 let r = d.validate();
                 if r.is_ok() {
-                    assert!(dist_params_valid(&d), "[C12.dist]");
+                    assert!(dist_params_valid(&d), "[C12.dist][C13.valid] a distribution the sampler cannot be built from was accepted");
                 }
                 kani::cover!(r.is_ok(), "accepted");
                 std::mem::forget(r);
